@@ -332,6 +332,7 @@ type c16Sel struct {
 	Matchers []*labels.Matcher `json:"-"`
 	Disabled bool              `json:"disabled"`
 	Snoozed  bool              `json:"snoozed"`
+	Pos      int               `json:"position"`
 	MinAgeMs int64             `json:"min_age_ms"`
 	Ignored  []string          `json:"label_values_ignored,omitempty"`
 }
@@ -369,6 +370,7 @@ type c16Case struct {
 	Fail     string       `json:"oracle_failure,omitempty"`
 	Known    string       `json:"known_finding_class,omitempty"`
 	nontriv  bool
+	sexpr    string
 	coq      string
 	classes  []string
 }
@@ -841,7 +843,7 @@ func c16RunOnce(c *c16Case) {
 		}
 		c.Checked = append(c.Checked, c16Sel{Str: s.String(), Bare: bare.String(), Name: s.Name, Matchers: s.LabelMatchers,
 			Disabled: checks.VerifIsDisabled(target.Rule, s), Snoozed: checks.VerifIsSnoozed(target.Rule, s),
-			MinAgeMs: minAge.Milliseconds(), Ignored: ign})
+			Pos: int(s.PosRange.Start), MinAgeMs: minAge.Milliseconds(), Ignored: ign})
 	}
 
 	now := time.Now()
@@ -908,8 +910,100 @@ func c16RunOnce(c *c16Case) {
 		return a.Severity < b.Severity
 	})
 
+	if root, ok := expr.Query.Expr.(promParser.Expr); ok {
+		c.sexpr = c16Sexpr(root, false)
+	}
 	c16Oracle(c, astSels, expr.Query.Expr)
 	c.coq = c16Coq(c)
+}
+
+// ---------------------------------------------------------------------------------------------
+// the rule expression as a term of Model/SeriesSelectors.v (sexpr); "" when it lies outside the modelled fragment
+
+var c16AlwaysFuncs = map[string]bool{"hour": true, "minute": true, "month": true, "year": true, "day_of_week": true,
+	"day_of_month": true, "day_of_year": true, "days_in_month": true}
+
+func c16IsNumber(n promParser.Expr) bool {
+	switch v := n.(type) {
+	case *promParser.NumberLiteral:
+		return true
+	case *promParser.ParenExpr:
+		return c16IsNumber(v.Expr)
+	}
+	return false
+}
+
+func c16Sexpr(n promParser.Expr, underUnless bool) string {
+	switch v := n.(type) {
+	case *promParser.VectorSelector:
+		return fmt.Sprintf("(ESel %s)", coqN(int(v.PosRange.Start)))
+	case *promParser.MatrixSelector:
+		return c16Sexpr(v.VectorSelector, underUnless)
+	case *promParser.ParenExpr:
+		return c16Sexpr(v.Expr, underUnless)
+	case *promParser.AggregateExpr:
+		if v.Param != nil {
+			return ""
+		}
+		return c16Wrap(c16Sexpr(v.Expr, underUnless))
+	case *promParser.Call:
+		switch {
+		case v.Func.Name == "vector" && len(v.Args) == 1:
+			return "EAlways"
+		case c16AlwaysFuncs[v.Func.Name] && len(v.Args) == 0:
+			return "EAlways"
+		case len(v.Args) == 1 && (v.Func.Name == "rate" || v.Func.Name == "max_over_time" || v.Func.Name == "absent"):
+			return c16Wrap(c16Sexpr(v.Args[0], underUnless))
+		}
+		return ""
+	case *promParser.BinaryExpr:
+		ln, rn := c16IsNumber(v.LHS), c16IsNumber(v.RHS)
+		if ln || rn {
+			if ln && rn {
+				return ""
+			}
+			side := v.LHS
+			if ln {
+				side = v.RHS
+			}
+			inner := c16Sexpr(side, underUnless)
+			if inner == "" {
+				return ""
+			}
+			if v.Op.IsComparisonOperator() {
+				return "(ECmp " + inner + ")"
+			}
+			return "(EWrap " + inner + ")"
+		}
+		switch v.Op {
+		case promParser.LOR:
+			return c16Bin("EOr", c16Sexpr(v.LHS, underUnless), c16Sexpr(v.RHS, underUnless))
+		case promParser.LUNLESS:
+			return c16Bin("EUnless", c16Sexpr(v.LHS, underUnless), c16Sexpr(v.RHS, true))
+		case promParser.LAND:
+			return c16Bin("EJoin false", c16Sexpr(v.LHS, underUnless), c16Sexpr(v.RHS, underUnless))
+		}
+		cons := "EJoin "
+		if v.VectorMatching != nil && v.VectorMatching.Card == promParser.CardOneToMany {
+			cons = "EJoinR "
+		}
+		return c16Bin(cons+coqBool(v.Op.IsComparisonOperator()), c16Sexpr(v.LHS, underUnless), c16Sexpr(v.RHS, underUnless))
+	}
+	return ""
+}
+
+func c16Wrap(inner string) string {
+	if inner == "" {
+		return ""
+	}
+	return "(EWrap " + inner + ")"
+}
+
+func c16Bin(cons, a, b string) string {
+	if a == "" || b == "" {
+		return ""
+	}
+	return "(" + cons + " " + a + " " + b + ")"
 }
 
 // ---------------------------------------------------------------------------------------------
@@ -1159,6 +1253,14 @@ func c16Coq(c *c16Case) string {
 		sels = append(sels, fmt.Sprintf("(mkSel %s %s %s %s %s %s %s %s)", coqStr(s.Str), coqStr(s.Bare), coqStr(s.Name),
 			c16CoqMatchers(s.Matchers), coqBool(s.Disabled), coqBool(s.Snoozed), coqZ(s.MinAgeMs*1_000_000), coqList(ign)))
 	}
+	exprTerm := "None"
+	if c.sexpr != "" {
+		exprTerm = "(Some " + c.sexpr + ")"
+	}
+	var poss []string
+	for _, s := range c.Checked {
+		poss = append(poss, coqN(s.Pos))
+	}
 	var rules []string
 	for _, n := range c.Recording {
 		rules = append(rules, fmt.Sprintf("(mkRI true %s false)", coqStr(n)))
@@ -1221,8 +1323,8 @@ func c16Coq(c *c16Case) string {
 	}
 	st := fmt.Sprintf("(mkSet %s %s %s %s %s)", coqZ(c16ParseDur(c.LookbackRange)*1_000_000), coqZ(c16ParseDur(c.LookbackStep)*1_000_000),
 		coqList(ignored), coqList(elsewhere), coqStr("up"))
-	return fmt.Sprintf("{| c_id := %s; c_db := %s; c_others := %s; c_now := %s; c_after := %s; c_instant := %s; c_range := %s; c_settings := %s; c_rules := %s; c_sels := %s; c_re := %s; c_observed := %s |}",
-		coqN(c.ID), c16CoqDB(&c.DB), coqList(others), coqZ(c.Now*1_000_000), coqZ(c.After*1_000_000), coqList(inst), coqList(rng), st, coqList(rules), coqList(sels), coqList(table), coqList(obs))
+	return fmt.Sprintf("{| c_id := %s; c_db := %s; c_others := %s; c_expr := %s; c_checked_pos := %s; c_now := %s; c_after := %s; c_instant := %s; c_range := %s; c_settings := %s; c_rules := %s; c_sels := %s; c_re := %s; c_observed := %s |}",
+		coqN(c.ID), c16CoqDB(&c.DB), coqList(others), exprTerm, coqList(poss), coqZ(c.Now*1_000_000), coqZ(c.After*1_000_000), coqList(inst), coqList(rng), st, coqList(rules), coqList(sels), coqList(table), coqList(obs))
 }
 
 // ---------------------------------------------------------------------------------------------
@@ -1234,7 +1336,7 @@ func runC16(args []string) int {
 	rep := newReport("C16", seed)
 	rep.Rule = "a case is non-trivial when at least one vector selector of the rule expression returns nothing now " +
 		"(the decision tree goes past step 1)"
-	cw := newCaseWriter(".", "Common.GoTime Model.Range Model.RangeRef Model.Series Run.C16", 40)
+	cw := newCaseWriter(".", "Common.GoTime Model.Range Model.RangeRef Model.Series Model.SeriesSelectors Run.C16", 40)
 	t0 := int64(0) // cases are generated as offsets and anchored at their own start (c16Shift)
 	var cases []*c16Case
 	id := 0
@@ -1268,6 +1370,7 @@ func runC16(args []string) int {
 			}
 		}
 		rep.hist(fmt.Sprintf("instant-requests-with-time-param=%v", tp))
+		rep.hist(fmt.Sprintf("expression-inside-selection-model=%v", c.sexpr != ""))
 		rep.hist("lookback=" + c.LookbackRange + "/" + c.LookbackStep)
 		for _, cl := range c.classes {
 			if i := strings.Index(cl, ":"); i >= 0 {
